@@ -139,4 +139,14 @@ theorem decode_encode_empty_status (rest : Bytes) :
     encode (.status []) = .ok [] ∧ decode ([] ++ rest) (size (.status [])) = .ok (.request, rest) := by
   constructor <;> rfl
 
+theorem wfRecBool_iff (a : AcStatusData) : wfRecBool a = true ↔ WFRec a := by
+  simp [wfRecBool, WFRec, and_assoc]
+
+theorem wfBool_iff (m : Msg) : wfBool m = true ↔ WF m := by
+  cases m with
+  | request => simp [wfBool, WF]
+  | status acs =>
+    simp only [wfBool, WF, Bool.and_eq_true, Bool.not_eq_true', List.all_eq_true, wfRecBool_iff]
+    cases acs <;> simp
+
 end PyAirtouch.Lemmas.At4X2D
